@@ -147,7 +147,10 @@ func checkIncludes(j *job.Job, s *job.Sink, c int64, r *rand.Rand) {
 		want = r.Intn(n)
 		inc = fmt.Sprintf("include s { revision-date %s; }", revs[want])
 	}
-	texts = append(texts, fmt.Sprintf("module m { namespace \"urn:m\"; prefix m; %s leaf top { type st; } }", inc))
+	texts = append(texts, fmt.Sprintf("module m { namespace \"urn:m\"; prefix m; %s include o; leaf top { type st; } }", inc))
+	// a sibling submodule that uses the typedef too: it sees it through the module, so in
+	// the revision the module includes
+	texts = append(texts, "submodule o { belongs-to m { prefix m; } leaf viaother { type st; } typedef ot { type m:st; } leaf viaother2 { type ot; } }")
 	desc := map[string]any{"texts": texts}
 	s.Current(c, desc)
 	s.Count("include_sets", 1)
@@ -178,6 +181,9 @@ func checkIncludes(j *job.Job, s *job.Sink, c int64, r *rand.Rand) {
 		}
 		m := ms.Modules["m"]
 		got := m.Include[0].Module
+		if m.Include[0].Name != "s" {
+			got = m.Include[1].Module
+		}
 		if got == nil || len(got.Leaf) == 0 || got.Leaf[0].Name != fmt.Sprintf("mark%d", want) {
 			g := "nothing"
 			if got != nil {
@@ -195,6 +201,11 @@ func checkIncludes(j *job.Job, s *job.Sink, c int64, r *rand.Rand) {
 		}
 		if t := e.Dir["top"]; t == nil || t.Type == nil || t.Type.Kind.String() != types[want] {
 			bad("include-typedef-of-wrong-revision", fmt.Sprintf("load order %v: %q: leaf top does not have the type of s@%s", p, inc, revs[want]))
+		}
+		for _, ln := range []string{"viaother", "viaother2"} {
+			if t := e.Dir[ln]; t == nil || t.Type == nil || t.Type.Kind.String() != types[want] {
+				bad("include-typedef-of-wrong-revision", fmt.Sprintf("load order %v: %q: leaf %s (written in a sibling submodule) does not have the type of s@%s", p, inc, ln, revs[want]))
+			}
 		}
 		s.Count("includes_checked", 1)
 	}
@@ -477,7 +488,9 @@ func Files(j *job.Job, s *job.Sink) {
 				}
 			}
 			// near misses
-			for _, nm := range [][2]string{{"foobar@2030-01-01.yang", "foobar"}, {"foo-x@2030-01-01.yang", "foo-x"}, {"xfoo.yang", "xfoo"}, {"foo@2030-1-1.yang", "foo"}, {"foo@2030-01-01.yang.bak", "foo"}, {"foo.yang~", "foo"}, {"fo.yang", "fo"}, {"foo@20300101.yang", "foo"}} {
+			for _, nm := range [][2]string{{"foobar@2030-01-01.yang", "foobar"}, {"foo-x@2030-01-01.yang", "foo-x"}, {"xfoo.yang", "xfoo"}, {"foo@2030-1-1.yang", "foo"}, {"foo@2030-01-01.yang.bak", "foo"}, {"foo.yang~", "foo"}, {"fo.yang", "fo"}, {"foo@20300101.yang", "foo"},
+				// names that sort between the dated candidates of the directory
+				{"foo@2015-6-15.yang", "foo"}, {"foo@2017-03-01.yang.orig", "foo"}, {"foo@2016-01-01", "foo"}, {"foo@2018-01-01.yang~", "foo"}, {"foo@2014-12-31T00.yang", "foo"}, {"foo@2019-01-01-draft.yang", "foo"}, {"foo@2012.yang", "foo"}} {
 				if r.Intn(3) == 0 {
 					add(nm[0], nm[1], "", false)
 				}
@@ -748,6 +761,27 @@ func twoRevisionsOneSubmodule(j *job.Job, s *job.Sink, c int64) {
 	if errs := ms.Process(); len(errs) > 0 {
 		s.Violation(c, j.CaseID(c), "C13.split", "split-reports-error", errs[0].Error(), fs, nil)
 		return
+	}
+	// lookups that start at a node written in the submodule and name the module by its
+	// belongs-to prefix stay in the tree the node is in (C17): forty times, since which
+	// module a submodule "belongs to" must not be a matter of map order
+	for _, k := range []string{"m@2019-01-01", "m@2020-01-01"} {
+		root := yang.ToEntry(ms.Modules[k])
+		start := root.Dir["fromsub"]
+		if start == nil {
+			continue
+		}
+		for q := 0; q < 40; q++ {
+			s.Count("lookups_from_submodule_nodes", 1)
+			if got := start.Find("/m:a"); got != root.Dir["a"] {
+				where := "nothing"
+				if got != nil {
+					where = "a node of the tree of " + yang.RootNode(got.Node).FullName()
+				}
+				s.Violation(c, j.CaseID(c), j.Property+".split", "path-leaves-the-tree-of-the-start-node", fmt.Sprintf("Find(/m:a) from /%s/fromsub (written in submodule s) returned %s", k, where), fs, nil)
+				return
+			}
+		}
 	}
 	want := []string{"fromsub"}
 	if nested {
